@@ -56,6 +56,9 @@ ExpectedMethodCount(ops) == MapThenSumSet(LAMBDA i : Cardinality(TagClasses(ops[
 TagPos(op, k) ==
   LET s == KeySeq(op)  hit == {j \in 1..Len(s) : s[j] = k} IN IF hit = {} THEN 0 ELSE Min(hit)
 MinTagPos(ops, k) == IF OpsOf(ops, k) = {} THEN 0 ELSE Min({TagPos(ops[i], k) : i \in OpsOf(ops, k)})
+\* the raw spellings of a class in the document; more than one = spelling variants of one tag
+Spellings(ops, k) == UNION {{ops[i].tags[j] : j \in {j \in 1..Len(ops[i].tags) : ops[i].keys[j] = k}} : i \in DOMAIN ops}
+Variants(ops, k) == Cardinality(Spellings(ops, k)) > 1
 
 \* ---- C07 on an observed surface -----------------------------------------------------------
 \*  t.clients[c] == [cls, prop, key, reachable, silent, dupdefs, methods : Seq([name, ident, ops, sent, rel, got, ...])]
@@ -167,8 +170,8 @@ MockJudged(t) == t.mockok = "yes"
 
 MethodParity(t, cl, me) ==
   LET pos == IF Len(me.ops) = 0 THEN 0 ELSE TagPos(t.ops[me.ops[1]], cl.key) IN
-  (IF cl.proto = "yes" /\ ~me.p.has THEN {[clause |-> "C13.method_missing", locus |-> [side |-> "protocol", tagpos |-> pos]]} ELSE {})
-  \cup (IF MockJudged(t) /\ cl.mock = "yes" /\ ~me.m.has THEN {[clause |-> "C13.method_missing", locus |-> [side |-> "mock", tagpos |-> pos]]} ELSE {})
+  (IF cl.proto = "yes" /\ ~me.p.has THEN {[clause |-> "C13.method_missing", locus |-> [side |-> "protocol", tagpos |-> pos, variants |-> Variants(t.ops, cl.key)]]} ELSE {})
+  \cup (IF MockJudged(t) /\ cl.mock = "yes" /\ ~me.m.has THEN {[clause |-> "C13.method_missing", locus |-> [side |-> "mock", tagpos |-> pos, variants |-> Variants(t.ops, cl.key)]]} ELSE {})
   \cup (IF cl.proto = "yes" /\ me.p.has /\ SideDiff(me.c, me.p) # ""
           THEN {[clause |-> "C13.signature_differs", locus |-> [side |-> "protocol", element |-> SideDiff(me.c, me.p)]]} ELSE {})
   \cup (IF MockJudged(t) /\ cl.mock = "yes" /\ me.m.has /\ SideDiff(me.c, me.m) # ""
@@ -186,13 +189,13 @@ ClientParity(t, cl) ==
   LET pos == MinTagPos(t.ops, cl.key) IN
   (IF cl.proto = "no" THEN {[clause |-> "C13.protocol_unsatisfied", locus |-> [side |-> "client", why |-> "no_protocol_class"]]} ELSE {})
   \cup (IF cl.proto = "unparsable" THEN {[clause |-> "C13.signature_differs", locus |-> [side |-> "protocol", element |-> "unparsable"]]} ELSE {})
-  \cup (IF MockJudged(t) /\ cl.mock = "no" THEN {[clause |-> "C13.mock_class_missing", locus |-> [tagpos |-> pos]]} ELSE {})
+  \cup (IF MockJudged(t) /\ cl.mock = "no" THEN {[clause |-> "C13.mock_class_missing", locus |-> [tagpos |-> pos, variants |-> Variants(t.ops, cl.key)]]} ELSE {})
   \cup (IF MockJudged(t) /\ cl.mock = "unparsable" THEN {[clause |-> "C13.signature_differs", locus |-> [side |-> "mock", element |-> "unparsable"]]} ELSE {})
   \cup (IF MockJudged(t) /\ cl.reachable /\ cl.prop \notin ToSet(t.mockprops)
-          THEN {[clause |-> "C13.apiclient_property_missing", locus |-> [side |-> "mock", tagpos |-> pos]]} ELSE {})
+          THEN {[clause |-> "C13.apiclient_property_missing", locus |-> [side |-> "mock", tagpos |-> pos, variants |-> Variants(t.ops, cl.key)]]} ELSE {})
   \cup UNION {MethodParity(t, cl, cl.methods[m]) : m \in DOMAIN cl.methods}
-  \cup {[clause |-> "C13.method_missing", locus |-> [side |-> "client", tagpos |-> 0, from |-> "protocol"]] : n \in ToSet(cl.pextra)}
-  \cup (IF MockJudged(t) THEN {[clause |-> "C13.method_missing", locus |-> [side |-> "client", tagpos |-> 0, from |-> "mock"]] : n \in ToSet(cl.mextra)} ELSE {})
+  \cup {[clause |-> "C13.method_missing", locus |-> [side |-> "client", tagpos |-> 0, variants |-> Variants(t.ops, cl.key), from |-> "protocol"]] : n \in ToSet(cl.pextra)}
+  \cup (IF MockJudged(t) THEN {[clause |-> "C13.method_missing", locus |-> [side |-> "client", tagpos |-> 0, variants |-> Variants(t.ops, cl.key), from |-> "mock"]] : n \in ToSet(cl.mextra)} ELSE {})
   \cup (IF cl.cproto_ok = "no" THEN {[clause |-> "C13.protocol_unsatisfied", locus |-> [side |-> "client", why |-> "isinstance_false"]]} ELSE {})
   \cup (IF MockJudged(t) /\ cl.mproto_ok = "no" /\ ~MockMethodMissing(t, cl)
           THEN {[clause |-> "C13.protocol_unsatisfied", locus |-> [side |-> "mock", why |-> "isinstance_false"]]} ELSE {})
@@ -200,7 +203,7 @@ ClientParity(t, cl) ==
 JudgeC13(t) ==
   IF t.status \notin {"ok", "noimport"} THEN {}
   ELSE UNION {ClientParity(t, t.clients[c]) : c \in DOMAIN t.clients}
-       \cup (IF MockJudged(t) THEN {[clause |-> "C13.apiclient_property_missing", locus |-> [side |-> "api", tagpos |-> 0]] :
+       \cup (IF MockJudged(t) THEN {[clause |-> "C13.apiclient_property_missing", locus |-> [side |-> "api", tagpos |-> 0, variants |-> \E k \in AllClasses(t.ops) : Variants(t.ops, k)]] :
                                       p \in ToSet(t.mockprops) \ ToSet(t.apiprops)} ELSE {})
 
 AnteC13(t) ==
